@@ -4,7 +4,7 @@ tier=${1:-quick}
 cd /verif
 for p in C01 C02 C03 C04 C05 C06 C07 C08 C09 C10 C11 C12 C13 C14 C15 C16 C17 C18 C19 C20; do
   s=$(date +%s)
-  out=$(timeout 7200 ./bin/gosmt check $p --tier $tier 2>&1); rc=$?
+  out=$(timeout ${VERIF_TIMEOUT:-7200} ./bin/gosmt check $p --tier $tier 2>&1); rc=$?
   e=$(date +%s)
   echo "$p tier=$tier exit=$rc wall=$((e-s))s $(echo "$out" | grep -c '^KNOWN-FINDING') known, $(echo "$out" | grep -c '^VIOLATION') violations, $(echo "$out" | grep -c '^BROKEN') broken, $(echo "$out" | grep -c 'UNCONFIRMED') unconfirmed"
 done
